@@ -320,7 +320,20 @@ def run(prog, rep):
     rep.check(bool(cmps) and all(isinstance(o, (ast.Is, ast.IsNot)) for c in cmps for o in c.ops), "IDENT-1", "SmartList.index by identity", "is",
               "SmartList.index compares with ==", idx.where, witness="A.remove(<equal child of B>) removes A's child and clears B's child's parent: later rename of B's child is unchecked")
     body = [s for s in rm.node.body if not (isinstance(s, ast.Expr) and isinstance(s.value, ast.Constant))]
-    rep.check(len(body) == 1 and isinstance(body[0], ast.Delete) and "index(" in unparse(body[0]), "IDENT-1", "SmartList.remove via index", "ok",
+    via_index = len(body) == 1 and isinstance(body[0], ast.Delete) and "index(" in unparse(body[0])
+    if not via_index:
+        # `pos = self.index(obj); del self[pos]` - the position may be kept in a local
+        from ..symtext import Expander as _Ex
+        from ..cfg import build_cfg as _bc
+        rg = _bc(rm)
+        rx = _Ex(rm, rg)
+        dels = [n for n in rg.nodes if n.kind == "stmt" and isinstance(n.ast, ast.Delete)]
+        others = [n for n in rg.nodes if n.kind == "stmt" and not isinstance(n.ast, (ast.Delete, ast.Assign)) and
+                  not (isinstance(n.ast, ast.Expr) and isinstance(n.ast.value, ast.Constant))]
+        via_index = len(dels) == 1 and not others and len(dels[0].ast.targets) == 1 and isinstance(dels[0].ast.targets[0], ast.Subscript) \
+            and rx.text(dels[0].ast.targets[0].slice, dels[0]) == "%s.index(%s)" % (rm.params[0], rm.params[1]) \
+            and unparse(dels[0].ast.targets[0].value) == rm.params[0]
+    rep.check(via_index, "IDENT-1", "SmartList.remove via index", "ok",
               "SmartList.remove no longer goes through the identity based index", rm.where)
     # ----------------------------------------------------------------- INV-I
     from ..report import import_verdicts
